@@ -154,6 +154,15 @@ def model_readout(ctx, conc, mons, exc, exp_keys, tab_a, Tk, names, k, tol, repl
         if abs(gi - mi) > tol or abs(go - mo) > tol:
             ctx.disagreement("C10.model.monitor", f"link M{c}_{p} at sweep point {k}: implementation {gi:.6f}/{go:.6f}, model {mi:.6f}/{mo:.6f}", replay)
             return False
+    # the table itself: column names and values as `get_monitor` (amplitude mode) tabulates them
+    cols = {c for c in tab_a.columns if c.endswith("_i") or c.endswith("_o")}
+    if [k_ for k_, _ in ans["table"]] and ({k_ for k_, _ in ans["table"]} != cols or len(ans["table"]) != len(cols)):
+        ctx.disagreement("C10.model.monitor", f"model tabulates the columns {sorted(k_ for k_, _ in ans['table'])}, implementation {sorted(cols)}", replay)
+        return False
+    for k_, v_ in ans["table"]:
+        if abs(tab_a[k_].iloc[k] - cfrac_to_complex(parse_cfrac(v_))) > tol:
+            ctx.disagreement("C10.model.monitor", f"column {k_} at sweep point {k}: implementation {tab_a[k_].iloc[k]:.6f}, model {cfrac_to_complex(parse_cfrac(v_)):.6f}", replay)
+            return False
     n = len(names)
     if n:
         flat = [z for row in ans["T"] for z in row]
